@@ -246,6 +246,21 @@ def case_chart_outside(case):
         t += 1
         if not raised:
             v.append(_V("charts/affine_coords/accepts-outside-point/%s/batch" % field, "N=%d chart %d: a batch containing %r was accepted" % (N, i, outside[0].tolist())))
+    # tiny but non-zero chart coordinates are inside the chart ("exactly when its chart coordinate is zero")
+    tiny = [1e-9, -1e-12, 1e-100] if field == "real" else [1e-9, 1e-12j, -1e-10 + 1e-10j]
+    for eps in tiny:
+        g = np.array([1.0 + 0.5 * k for k in range(N + 1)], dtype=dt)
+        g[i] = eps
+        inch = np.asarray(projective.Point(g.copy()).in_affine_chart(i))
+        both = np.asarray(projective.Point(np.array([g, g[::-1] + 1.0])).in_affine_chart(i))
+        t += 2
+        if not bool(inch) or not bool(both[0]):
+            v.append(_V("charts/in_affine_chart/tiny-nonzero/%s" % field, "N=%d chart %d point %r (chart coordinate %r != 0) reported outside the chart" % (N, i, g.tolist(), eps)))
+        raised, r = _raises_geometry_error(lambda: projective.Point(g.copy()).affine_coords(chart_index=i))
+        t += 1
+        want = np.delete(g / g[i], i)
+        if raised or not np.max(np.abs(r - want) / np.abs(want)) <= 1e-12:
+            v.append(_V("charts/affine_coords/tiny-nonzero/%s" % field, "N=%d chart %d point %r: %s" % (N, i, g.tolist(), "GeometryError" if raised else "wrong value %r" % (r,))))
     return {"v": v, "t": t, "o": repr((N, i, field, len(Vs), int(np.count_nonzero(want_in)))), "nt": True}
 
 
